@@ -213,6 +213,26 @@ theorem inv_step (c : Cfg) (htl : TlOk c.tl) (s : State) (op : Op)
         · split
           · rename_i hv; exact inv_of_base htl hv
           · exact h
+  | load v sameType sameGeo =>
+    simp only [step]
+    split
+    · exact h
+    · split
+      · exact h
+      · cases v with
+        | none => cases kind <;> exact trivial
+        | some v =>
+          cases kind <;> simp only
+          · split
+            · rename_i a hv
+              by_cases hx : isXr v = true
+              · rw [if_pos hx] at hv; exact inv_of_photon3 htl rfl hv
+              · rw [if_neg hx] at hv; exact inv_of_photon2 htl hv
+            · exact h
+          all_goals
+            split
+            · rename_i hv; exact inv_of_base htl hv
+            · exact h
   | emptyAll reset =>
     cases kind <;> simp only [step] <;> first | exact trivial | skip
     · -- pixel
@@ -296,7 +316,8 @@ example :
 /-! ### rejected assignments -/
 
 /-- **An assignment that raises leaves the previous content untouched** (`.array =`,
-`.array_3d =`, `update`, `detector.<bucket> = other`), in every state — no invariant needed. -/
+`.array_3d =`, `update`, `detector.<bucket> = other`, `load_detector`), in every state — no
+invariant needed. -/
 theorem failed_assignment_leaves_state (c : Cfg) (s : State) (op : Op) (hop : isAssign op = true)
     (e : Err) (h : (step c s op).2 = .error e) : (step c s op).1 = s := by
   obtain ⟨tl, kind, rows, cols⟩ := c
@@ -337,6 +358,16 @@ theorem failed_assignment_leaves_state (c : Cfg) (s : State) (op : Op) (hop : is
         · split
           · rename_i hv; simp_all
           · rfl
+  | load v sameType sameGeo =>
+    simp only [step] at h ⊢
+    split
+    · rfl
+    · split
+      · rfl
+      · cases v with
+        | none => cases kind <;> simp_all
+        | some v =>
+          cases kind <;> simp only at h ⊢ <;> split <;> first | rfl | (rename_i hv; simp_all)
   | iadd _ | empty | emptyAll _ | read | read3 | readDtype | readShape => simp [isAssign] at hop
 
 /-- a failed in-place addition also leaves the state untouched, in every state the invariant
@@ -493,6 +524,18 @@ example :
     step c none (.adopt (some (.nd true [5, 5] .float64 false 0))) = (none, .error .valueError) := by
   refine ⟨?_, by rfl⟩
   rw [← invB_iff]; decide
+
+/-- **A refused `load_detector` changes nothing**: a file of another detector type or of another
+geometry raises and leaves the bucket exactly as it was (in particular no bucket of the file is
+installed before the refusal). -/
+theorem refused_load_leaves_state (c : Cfg) (s : State) (v : Option Operand)
+    (sameType sameGeo : Bool) (h : sameType = false ∨ sameGeo = false) :
+    ∃ e, step c s (.load v sameType sameGeo) = (s, .error e) := by
+  rcases h with rfl | rfl
+  · exact ⟨.typeError, by simp [step]⟩
+  · cases sameType
+    · exact ⟨.typeError, by simp [step]⟩
+    · exact ⟨.valueError, by simp [step]⟩
 
 /-! ### reading -/
 
